@@ -109,6 +109,13 @@ class Hold:
                         self.stale.pop(e.bound, None)
                 elif f in CLOBBER_ALL:
                     self.clobber('all', f.replace('self.', ''))
+                elif f.startswith('self.') and args and args[0] in SCRATCH:
+                    # any other emitting helper handed a scratch register as its destination writes it
+                    # (get_array_size(self.r0, ..), arith_op_reg_arg(r_out, ..)); its result lives there
+                    self.clobber({args[0]}, f'{f.replace("self.", "")}({args[0]}, ..)')
+                    if isinstance(e.bound, str):
+                        self.held[e.bound] = args[0]
+                        self.stale.pop(e.bound, None)
                 elif f == '.set':
                     pass
             elif e.kind == 'emit':
@@ -405,6 +412,14 @@ def run(repo, chk):
     chk.expect('if not keep or isinstance(result, asm.Immediate):' in t and 'return (yield from self.push_value(expr.type, result))' in t, 'C01.R1',
                'eval_expr::keep tail', 'a kept non-immediate result is pushed to the frame', GEN)
 
+    _word_cells(repo, chk, gf)
+    # side effects of every operand survive the typechecker (shared with C14.F7)
+    chk.rule('C01.E2', 'no operand with effects is deleted at compile time: folding and casts keep every call-containing operand '
+                       '(tabulated over all operator classes, positions and constant partners - shared with C14.F7)')
+    from . import c14
+    lexns = it.load('hidc/lexer/__init__.py')
+    c14._effects_kept(Remap(chk, {'C14.F7': 'C01.E2'}), astns, lexns['Span'](lexns['Cursor'](0, 0), lexns['Cursor'](0, 1)))
+
     # ---------------- S1 ------------------------------------------------------------------------------
     lv = gf.paths('lookup_var')
     ok = False
@@ -498,3 +513,124 @@ def run(repo, chk):
                ('self.func_table[csig] = list(' in mfn and 'self.gen_func(csig, decl)' in mfn), 'C01.A1', 'make_funcs',
                'bodies are stored in generation order', GEN)
     chk.not_decided = ['the output bytes of any particular program; wrap-around, truncation and the VM\'s arithmetic (see C09)']
+
+
+# ---------------------------------------------------------------------------------------------------------
+# R2: destinations of expression evaluation are word cells
+# ---------------------------------------------------------------------------------------------------------
+def _word_cells(repo, chk, gf):
+    """Every register operand handed to the evaluating helpers receives full-word writes (Mov / arithmetic /
+    loads all write a word).  It must therefore denote a word cell: one of CodeGen's word globals (r0..r2, ap,
+    fp, ...), a register parameter of the enclosing method (its callers are checked by the same rule), or
+    `X.immed` of an accessor X proven - by an isinstance test dominating the use - to be of a class whose own
+    `set` is a word Mov to `self.immed`.  A byte cell (StateByte) also has `.immed`; computing into it
+    overwrites the word_size-1 bytes that follow it."""
+    chk.rule('C01.R2', 'destinations of expression evaluation are word cells: a scratch/word global, a register parameter, or '
+                       '`X.immed` under a dominating isinstance(X, <word accessor class>)')
+    ASMF = 'hidc/codegen/asm.py'
+    # word accessor classes: `set` emits Mov(self.immed, ...)
+    word_classes = set()
+    for cname, node in repo.classes(ASMF).items():
+        for m in node.body:
+            if isinstance(m, ast.FunctionDef) and m.name == 'set':
+                ys = [n for n in ast.walk(m) if isinstance(n, ast.Yield) and isinstance(n.value, ast.Call)]
+                if ys and all(src(y.value.func) == 'Mov' and y.value.args and src(y.value.args[0]) == 'self.immed' for y in ys):
+                    word_classes.add(cname)
+    chk.expect(bool(word_classes), 'C01.R2', 'asm word accessor classes', f'{sorted(word_classes)}', ASMF)
+    # word globals of CodeGen
+    cg = repo.find_class(GEN, 'CodeGen')
+    word_globals = {t.id for s in cg.body if isinstance(s, ast.Assign) and isinstance(s.value, ast.Call)
+                    and src(s.value.func) == 'asm.LabelRef' for t in s.targets if isinstance(t, ast.Name)}
+    chk.floor('word globals of CodeGen', len(word_globals), 5)
+
+    # functions whose first parameter is a destination register: eval_expr and everything forwarding into it
+    methods = dict(gf.methods)
+
+    def first_param(fn):
+        a = [x.arg for x in fn.args.args if x.arg != 'self']
+        return a[0] if a else None
+    dest_funcs = {'eval_expr'}
+    changed = True
+    while changed:
+        changed = False
+        for name, fn in methods.items():
+            if name in dest_funcs or first_param(fn) is None:
+                continue
+            fp = first_param(fn)
+            for n in ast.walk(fn):
+                if isinstance(n, ast.Call) and isinstance(n.func, ast.Attribute) and src(n.func.value) == 'self' \
+                        and n.func.attr in dest_funcs and n.args and src(n.args[0]) == fp:
+                    dest_funcs.add(name)
+                    changed = True
+                    break
+    chk.floor('destination-taking evaluators', len(dest_funcs), 3)
+    accessor_dest = {'get', 'to', 'get_fast'}      # accessor.get(r) / accessor.to(r) / bubble.get_fast(r) load into r
+
+    def parents(fn):
+        par = {}
+        for n in ast.walk(fn):
+            for c in ast.iter_child_nodes(n):
+                par[c] = n
+        return par
+
+    def isinstance_word(test, obj):
+        """`isinstance(obj, asm.C)` with C a word accessor class (or a tuple of such)."""
+        if not (isinstance(test, ast.Call) and src(test.func) == 'isinstance' and len(test.args) == 2 and src(test.args[0]) == obj):
+            return False
+        cl = test.args[1]
+        names = [src(e) for e in cl.elts] if isinstance(cl, ast.Tuple) else [src(cl)]
+        return all(n.split('.')[-1] in word_classes for n in names)
+
+    def dominated(node, obj, par, fn):
+        """node lies in the true branch of an isinstance_word(obj) test (If body, IfExp body, or `and` right operand)."""
+        cur = node
+        while cur in par and cur is not fn:
+            p = par[cur]
+            if isinstance(p, ast.IfExp) and cur is p.body and isinstance_word(p.test, obj):
+                return True
+            if isinstance(p, ast.If) and cur in p.body and isinstance_word(p.test, obj):
+                return True
+            if isinstance(p, ast.BoolOp) and isinstance(p.op, ast.And) and cur in p.values[1:] and \
+                    any(isinstance_word(v, obj) for v in p.values[:p.values.index(cur)]):
+                return True
+            cur = p
+        return False
+
+    def is_word_cell(e, fn, par, depth=0):
+        if isinstance(e, ast.Attribute) and src(e.value) == 'self' and e.attr in word_globals:
+            return True
+        if isinstance(e, ast.Name):
+            if e.id in [a.arg for a in fn.args.args]:
+                return True
+            defs = [n for n in ast.walk(fn) if isinstance(n, ast.Assign) and any(isinstance(t, ast.Name) and t.id == e.id for t in n.targets)]
+            defs += [n for n in ast.walk(fn) if isinstance(n, ast.NamedExpr) and n.target.id == e.id]
+            return bool(defs) and depth < 4 and all(is_word_cell(d.value, fn, par, depth + 1) for d in defs)
+        if isinstance(e, ast.IfExp):
+            return is_word_cell(e.body, fn, par, depth + 1) and is_word_cell(e.orelse, fn, par, depth + 1)
+        if isinstance(e, ast.Attribute) and e.attr == 'immed':
+            return dominated(e, src(e.value), par, fn)
+        return False
+
+    n_sites = 0
+    for name, fn in methods.items():
+        par = None
+        for n in ast.walk(fn):
+            if not (isinstance(n, ast.Call) and isinstance(n.func, ast.Attribute) and n.args):
+                continue
+            recv, attr = src(n.func.value), n.func.attr
+            is_dest = (recv == 'self' and attr in dest_funcs) or \
+                      (recv != 'self' and attr in accessor_dest and not recv.startswith(('self.env', 'self.local_vars', 'self.global_vars',
+                                                                                           'self.numbered_labels', 'stdlib.'))
+                       and not recv.endswith('_map') and len(n.args) == 1 and not n.keywords)
+            if not is_dest:
+                continue
+            if par is None:
+                par = parents(fn)
+            a0 = n.args[0]
+            if attr in accessor_dest and recv != 'self' and not isinstance(a0, (ast.Name, ast.Attribute, ast.IfExp)):
+                continue        # dict.get(key) and the like
+            n_sites += 1
+            ok = is_word_cell(a0, fn, par)
+            chk.expect(ok, 'C01.R2', f'{name}::{src(n)[:70]}', f'destination `{src(a0)}` is not provably a word cell '
+                       f'(word globals {sorted(word_globals)}, word accessor classes {sorted(word_classes)})', GEN, n.lineno)
+    chk.floor('destination operands checked', n_sites, 40)
